@@ -110,6 +110,9 @@ def enc_q(fr):
 
 
 def enc_key(k, I):
+    if type(k).__name__ == "optional" and type(k).__module__.startswith("d42."):
+        # the DSL's own key marker used as DATA: outside the modelled universe (the oracles on the real code still see it)
+        raise Unencodable("optional(...) key object as data")
     if k is None:
         return "N"
     if k is Ellipsis:
